@@ -79,7 +79,7 @@ impl Ask {
     fn produces(&self) -> u32 {
         match self.e {
             4 => 0,
-            1..=3 => 1,
+            1..=3 | 5 | 6 => 1,
             _ => self.m.max(1),
         }
     }
@@ -94,6 +94,12 @@ thread_local! {
     /// The request `mk_request` built last is one a middleware answers in
     /// the service's place (EDNS version 1): one reply.
     static LAST_REQ_SHORT: std::cell::Cell<bool> = const { std::cell::Cell::new(false) };
+    /// When the service was called for request k.
+    static CALLED: RefCell<BTreeMap<u32, u64>> = const { RefCell::new(BTreeMap::new()) };
+    /// When `StreamServer::reconfigure()` was called in this run.
+    static RECONF_NS: RefCell<Vec<u64>> = const { RefCell::new(Vec::new()) };
+    /// The stream server's configured idle timeout in this run (ms).
+    static IDLE_MS: std::cell::Cell<u64> = const { std::cell::Cell::new(0) };
     /// When `StreamServer::shutdown()` was called in this run, if it was.
     static SHUTDOWN_NS: std::cell::Cell<Option<u64>> = const { std::cell::Cell::new(None) };
 }
@@ -168,6 +174,35 @@ impl Service<Vec<u8>, ()> for SimService {
             if ask.d > 0 {
                 tokio::time::sleep(Duration::from_millis(ask.d as u64)).await;
                 sim::sync_clock();
+            }
+            CALLED.with(|p| p.borrow_mut().insert(ask.k, sim::now_ns()));
+            if ask.e == 6 {
+                // A service that simply takes one and a half times the idle
+                // timeout: a connection with a request in flight is not idle.
+                sim::stat("probe.service_slower_than_idle_timeout");
+                tokio::time::sleep(Duration::from_millis(IDLE_MS.with(|c| c.get()) * 3 / 2)).await;
+                sim::sync_clock();
+                PRODUCED.with(|p| p.borrow_mut().insert(ask.k, sim::now_ns()));
+                let item: ServiceResult<Vec<u8>> = Ok(CallResult::new(build_response(&msg, &ask, 0)));
+                return Box::pin(futures_util::stream::once(std::future::ready(item))) as SvcStream;
+            }
+            if ask.e == 5 {
+                // Feedback first - a longer idle timeout for this connection
+                // -, then silence for one and a half times the old timeout,
+                // then the response: the connection must still be there.
+                let idle = IDLE_MS.with(|c| c.get());
+                sim::stat("probe.reconfigure_feedback_then_slow_response");
+                let first: ServiceResult<Vec<u8>> = Ok(CallResult::feedback_only(ServiceFeedback::Reconfigure { idle_timeout: Some(Duration::from_millis(idle * 3)) }));
+                let (m2, a2) = (msg.clone(), ask);
+                let second = async move {
+                    tokio::time::sleep(Duration::from_millis(idle * 3 / 2)).await;
+                    sim::sync_clock();
+                    PRODUCED.with(|p| p.borrow_mut().insert(a2.k, sim::now_ns()));
+                    let item: ServiceResult<Vec<u8>> = Ok(CallResult::new(build_response(&m2, &a2, 0)));
+                    item
+                };
+                use futures_util::StreamExt;
+                return Box::pin(futures_util::stream::once(std::future::ready(first)).chain(futures_util::stream::once(second))) as SvcStream;
             }
             PRODUCED.with(|p| p.borrow_mut().insert(ask.k, sim::now_ns()));
             match ask.e {
@@ -328,7 +363,12 @@ fn gen_ask(k: u32, udp: bool) -> Ask {
         4 => sim::draw("ask.delay_ms", 30) as u32,
         _ => 50 + sim::draw("ask.delay_long", 200) as u32,
     };
-    let e = if sim::chance("ask.err", 1, 8) { 1 + sim::draw("ask.err_kind", 4) as u32 } else { 0 };
+    let mut e = if sim::chance("ask.err", 1, 8) { 1 + sim::draw("ask.err_kind", 4) as u32 } else { 0 };
+    // With a short idle timeout: now and then a request whose service first
+    // asks for a longer one and answers after the old one has passed.
+    if !udp && IDLE_MS.with(|c| c.get()) == 2000 && sim::chance("ask.reconfigure_then_slow", 1, 10) {
+        e = 5 + sim::draw("ask.plain_slow", 2) as u32;
+    }
     let p = if sim::chance("ask.other_section", 1, 5) { 1 + sim::draw("ask.section", 2) as u32 } else { 0 };
     Ask { k, n, s, m, d, e, p }
 }
@@ -880,6 +920,9 @@ async fn run(_tier: Tier) {
     ev!("cfg max_response_size={:?} max_queued={} write_timeout={}ms cookies={} hostile={}", max_response_size, knobs.max_queued, knobs.write_timeout_ms, use_cookies, hostile);
 
     PRODUCED.with(|p| p.borrow_mut().clear());
+    CALLED.with(|p| p.borrow_mut().clear());
+    RECONF_NS.with(|p| p.borrow_mut().clear());
+    IDLE_MS.with(|c| c.set(knobs.idle_timeout_ms));
     SHUTDOWN_NS.with(|c| c.set(None));
     let udp = UdpNet::new();
     let server_addr = addr(1, 53);
@@ -932,6 +975,8 @@ async fn run(_tier: Tier) {
                     for _ in 0..n {
                         tokio::time::sleep(Duration::from_millis(at + 1)).await;
                         sim::stat("fault.reconfigure");
+                        sim::sync_clock();
+                        RECONF_NS.with(|r| r.borrow_mut().push(sim::now_ns()));
                         ev!("stream server reconfigure()");
                         let _ = s3.reconfigure(cfg.clone());
                     }
@@ -1012,8 +1057,11 @@ async fn run(_tier: Tier) {
         let n = 1 + sim::draw("setup_failer.n", 14);
         let l2 = listener.clone();
         exec.spawn("setup-failer".to_string(), async move {
-            let planner: Arc<dyn Fn(usize) -> ConnectPlan + Send + Sync> = Arc::new(|_| ConnectPlan {
-                fail_setup: true,
+            // (Every third of them is gone before the server even accepts
+            // it: accept() itself reports the error.)
+            let planner: Arc<dyn Fn(usize) -> ConnectPlan + Send + Sync> = Arc::new(|i| ConnectPlan {
+                fail_setup: i % 3 != 2,
+                accept_error: i % 3 == 2,
                 ..Default::default()
             });
             let c = l2.connector(addr(99, 7000), planner);
@@ -1235,7 +1283,21 @@ fn check(led: &Led, max_response_size: Option<u16>, junk: &[Vec<u8>]) {
                                 continue;
                             }
                         }
-                        _ => format!("response-lost/{}", if s.udp { "udp" } else { "stream" }),
+                        _ => {
+                            // The idle timeout hits connections that still
+                            // owe a response (known finding): a service that
+                            // is slower than the timeout, or one that asked
+                            // for a longer timeout first and had that undone
+                            // by a server-level reconfigure().
+                            let idle_ns = IDLE_MS.with(|c| c.get()) * 1_000_000;
+                            let called = CALLED.with(|p| p.borrow().get(&s.ask.k).copied());
+                            let undone = called.is_some_and(|t0| RECONF_NS.with(|r| r.borrow().iter().any(|t| *t >= t0 && *t <= t0 + idle_ns * 3 / 2)));
+                            if !s.udp && (s.ask.e == 6 || (s.ask.e == 5 && undone)) {
+                                "response-lost/stream/request-in-flight-longer-than-the-idle-timeout".to_string()
+                            } else {
+                                format!("response-lost/{}", if s.udp { "udp" } else { "stream" })
+                            }
+                        }
                     }
                 }
             };
